@@ -37,6 +37,7 @@ structure Meta where
   sealed : Bool
   accW : Bool              -- accessor_writable
   part : Bool              -- allow_partial
+  ref : Option Nat := none -- pg.Ref only: the referenced value (id of a node, or of a plain object)
   deriving DecidableEq, Repr, Inhabited
 
 inductive Tree where
@@ -58,8 +59,16 @@ structure Cfg where
 def Cfg.pinned : Cfg := ⟨false, false, false, false⟩
 def Cfg.patched : Cfg := ⟨true, true, true, true⟩
 
-/-- The test classes of the harness: class `c` has fields `k0 … k(c+1)`, all `Any`, default None. -/
-def clsFields (cls : Nat) : List Key := (List.range (cls + 2)).map Key.s
+/-- The object classes: 0 and 1 are the test classes of the harness (fields `k0 k1` / `k0 k1 k2`,
+all `Any`, default None, `allow_symbolic_assignment = True`); 2 is `pg.Ref`, 3 is
+`pg.symbolic.ValueFromParentChain` (no symbolic fields, not assignable). -/
+def clsFields : Nat → List Key
+  | 0 => [Key.s 0, Key.s 1]
+  | 1 => [Key.s 0, Key.s 1, Key.s 2]
+  | _ => []
+
+def clsRef : Nat := 2
+def clsInferred : Nat := 3
 
 namespace Tree
 
@@ -156,6 +165,7 @@ def sealIf (b : Bool) (t : Tree) : Tree := if b then t.seal true else t
 def cloneSealed (cfg : Cfg) (m : Meta) : Bool :=
   match m.kind with
   | .list => cfg.listCloneSealed && m.sealed
+  | .obj 2 => false          -- `Ref._sym_clone` builds `Ref(value, allow_partial=…)`: `sealed` is lost (F90)
   | _ => m.sealed
 
 mutual
@@ -193,6 +203,16 @@ mutual
   def updateAtItems (t : Nat) (g : Meta → Items → Items) : Items → Items
     | [] => []
     | (k, c) :: r => (k, c.updateAt t g) :: updateAtItems t g r
+end
+
+mutual
+  /-- apply `g` to the subtree rooted at the node with id `t`. -/
+  def Tree.mapSubtree (t : Nat) (g : Tree → Tree) : Tree → Tree
+    | .leaf a => .leaf a
+    | .node m its => if m.id = t then g (.node m its) else .node m (mapSubtreeItems t g its)
+  def mapSubtreeItems (t : Nat) (g : Tree → Tree) : Items → Items
+    | [] => []
+    | (k, c) :: r => (k, c.mapSubtree t g) :: mapSubtreeItems t g r
 end
 
 /-! ### Local item-list functions -/
@@ -274,6 +294,7 @@ end Forest
 inductive VE where
   | atom (a : Atom)                 -- a leaf value as it is (an `opaque i` is that very object)
   | fresh                           -- a fresh non-symbolic object
+  | mkRef (tgt : Option Nat)        -- `pg.Ref(x)`: x an existing node, or (none) a fresh plain list
   | node (kind : Kind) (sealed accW part : Bool) (items : List (Key × VE))
   | ref (id : Nat)                  -- an existing node object
   deriving Repr, Inhabited
@@ -319,6 +340,13 @@ mutual
   through `relocateRef`. The result is built for the destination (`par`, `p`). -/
   def evalVE (cfg : Cfg) (f : Forest) (pending : Option Nat) (par : Option Nat) (holderObj : Bool) (hpart : Bool) (p : List Key) : VE → Forest × Tree
     | .fresh => ({ f with nextId := f.nextId + 1 }, .leaf (.opaque f.nextId))
+    | .mkRef tgt =>
+      -- a Ref is a pg.Object without symbolic fields; the referenced value is not its child
+      let id := f.nextId
+      let tg := tgt.getD (id + 1)
+      ({ f with nextId := id + 2 },
+       .node { id := id, parent := par, path := p, kind := .obj clsRef, sealed := false, accW := false,
+               part := false, ref := some tg } [])
     | .atom a => (f, .leaf a)
     | .ref id => relocateRef cfg f pending par holderObj p id
     | .node kind sl aw pt items =>
